@@ -68,6 +68,11 @@ def note_from_j(j):
         n.tempo = j.get('tempo')
     if n.duration != dur:                     # denominators > 1000 (reached by chaining .t7.t7.t7): bypass the constructor
         n.duration = dur
+    via = j.get('dur_via')
+    if via and dur.denominator == 1:
+        # the same whole-number duration given through the public setters as a plain int (seed C20-6 kept the int,
+        # and the printed form that melody / chord equality and hashing go through spells int and Fraction differently)
+        n = n.set_duration(int(dur)) if via == 'set_int' else n.set_duration(1).augment(int(dur))
     return n
 
 
@@ -187,6 +192,9 @@ def rnote_j(rng, kinds=KINDS, in_melody=False):
          'acc': rng.choice(ACCS) if rng.random() < 0.25 else None, 'amp': ramp(rng), 'tagops': rtagops(rng),
          'tempo': rng.choice([60, 120, 90]) if rng.random() < 0.15 else None,
          'pedal': rng.choice([True, False]) if rng.random() < 0.15 else None}
+    if rng.random() < 0.08:
+        j['dur'] = str(rng.choice([5, 7, 8, 12, 2, 3]))
+        j['dur_via'] = rng.choice(['set_int', 'set_int', 'augment_int'])
     if k in ('r', 'l') and (in_melody or rng.random() < 0.7):
         j['cls'] = 'Silence' if k == 'r' else 'Continuation'
         if rng.random() < 0.7:                # the plain library symbol
